@@ -27,16 +27,16 @@ TDog    == "*lazyuni.Dog"
 TCat    == "*lazyuni.Cat"
 TOther  == "*lazyuni.Other"
 
-SdlHead == "type Query { title: String  echo(s: String, i: Int): String  dog: Canine  cat: Cat  pet: Animal  stray: Animal  any: Thing  any2: Thing } "
+SdlHead == "type Query { title: String  echo(s: String, i: Int): String  dog: Canine  cat: Cat  pet: Animal  stray: Animal  any: Thing  any2: Thing  odd: Thing } "
            \o "interface Animal { name: String } "
 SdlTail == "{ name: String  bark(times: Int): String } "
            \o "type Cat implements Animal { name: String  lives: Int } "
            \o "type Other { x: Int } "
-           \o "union Thing = Canine | Cat "
+           \o "union Thing = Cat | Canine "          \* (members not in the order the root keeps its types in)
 
 BaseFields ==
   [schema |-> {"query"},
-   Query  |-> {"title", "echo", "dog", "cat", "pet", "stray", "any", "any2"},
+   Query  |-> {"title", "echo", "dog", "cat", "pet", "stray", "any", "any2", "odd"},
    Canine |-> {"name", "bark"}, Cat |-> {"name", "lives"}, Other |-> {"x"}]
 
 BaseWorld ==
@@ -45,7 +45,7 @@ BaseWorld ==
     scan    |-> <<"Query", "Canine", "Cat", "Other">>,     \* object types in Root.types order (Query first, then by name)
     objs    |-> {"schema", "Query", "Canine", "Cat", "Other"},
     ifaces  |-> [schema |-> {}, Query |-> {}, Canine |-> {"Animal"}, Cat |-> {"Animal"}, Other |-> {}],
-    members |-> [Thing |-> <<"Canine", "Cat">>],
+    members |-> [Thing |-> <<"Cat", "Canine">>],
     static  |-> [schema |-> "", Query |-> "", Canine |-> "", Cat |-> "", Other |-> ""],
     match   |-> [schema |-> {}, Query |-> {TQuery}, Canine |-> {}, Cat |-> {TCat}, Other |-> {TOther}],
     fields  |-> BaseFields,
@@ -53,7 +53,7 @@ BaseWorld ==
     gobind  |-> [x \in {TSchema, TQuery, TDog, TCat, TOther} |->
                    CASE x = TSchema -> [query |-> "method"]
                      [] x = TQuery  -> [title |-> "method", echo |-> "method", dog |-> "method", cat |-> "method",
-                                        pet |-> "method", stray |-> "method", any |-> "method", any2 |-> "method"]
+                                        pet |-> "method", stray |-> "method", any |-> "method", any2 |-> "method", odd |-> "method"]
                      [] x = TDog    -> [name |-> "field", bark |-> "method"]
                      [] x = TCat    -> [name |-> "field", lives |-> "field"]
                      [] x = TOther  -> [x |-> "field"]] ]
@@ -105,13 +105,22 @@ LazyReqs ==
                    <<VSchema, VQ("any2"), LVisit("union", "", "Thing", TDog, "name")>>,
                    [val |-> Resp([any2 |-> ObjV([name |-> StrV("rex")])]),
                     err |-> RespErr([any2 |-> NullV], << <<"k:any2">> >>)]),
+    \* a value that is no member of the union: an error, whichever members have been bound to Go types by then
+    odd    |-> Req("{ odd { __typename } }", NoVars,
+                   <<VSchema, VQ("odd"), LVisit("union", "", "Thing", TOther, "x")>>,
+                   [err |-> RespErr([odd |-> NullV], << <<"k:odd">> >>)]),
     intro  |-> Req("{ __type(name: \"Cat\") { name kind interfaces { name } } }", NoVars,
                    <<VSchema, LVisit("intro", "", "", "", "")>>,
                    [val |-> Resp([__type |-> ObjV([name |-> StrV("Cat"), kind |-> StrV("OBJECT"),
-                                                   interfaces |-> ListV(<<ObjV([name |-> StrV("Animal")])>>)])])]) ]
+                                                   interfaces |-> ListV(<<ObjV([name |-> StrV("Animal")])>>)])])]),
+    \* what a union can be is asked while values of the union are being resolved: the members are read, never rearranged
+    introu |-> Req("{ __type(name: \"Thing\") { possibleTypes { name } } u: __type(name: \"Animal\") { possibleTypes { name } } }", NoVars,
+                   <<VSchema, LVisit("intro", "", "", "", "")>>,
+                   [val |-> Resp([__type |-> ObjV([possibleTypes |-> ListV(<<ObjV([name |-> StrV("Canine")]), ObjV([name |-> StrV("Cat")])>>)]),
+                                  u |-> ObjV([possibleTypes |-> ListV(<<ObjV([name |-> StrV("Canine")]), ObjV([name |-> StrV("Cat")])>>)])])]) ]
 
 \* the order in which request names are enumerated (pairs i <= j)
-LazyReqSeq == <<"title", "echo", "echov", "dog", "cat", "pet", "stray", "anycat", "anydog", "intro">>
+LazyReqSeq == <<"title", "echo", "echov", "dog", "cat", "pet", "stray", "anycat", "anydog", "odd", "intro", "introu">>
 
 LazyUni == [worlds |-> LazyWorlds, reqs |-> LazyReqs, reqSeq |-> LazyReqSeq]
 =============================================================================
